@@ -242,6 +242,20 @@ claim('C15',
       'bounded exhaustive enumeration of output configurations against a step-level recorder',
       'DESIGN.md#c15')
 
+claim('C07',
+      'Single-machine benchmark: GENCLS against an infinite bus through three parallel lines; parameter lattice M x D x x\'d x '
+      'line reactance x loading (default + all single and pair deviations in quick, full tensor in thorough) x 7 switching '
+      'schedules (none, open at t1, open and reclose) x both methods, each run at four step sizes; the rotor angle is compared '
+      'with the swing equation integrated by scipy (DOP853, rtol 1e-10) from the power-flow point: the error must shrink at '
+      'the method\'s order on two successive halvings and stay below a bound built from the reference\'s own derivatives at '
+      'the default step and tolerance. Small-signal benchmark: every state direction (every 3rd in quick) of SMIB, '
+      'kundur_full and ieee14_full perturbed by 1e-4 for both methods against expm(As t) dx0 with As assembled by the '
+      'harness from the Jacobians at the operating point.',
+      'Lattice of parameter values only; order visible only below the Newton tolerance (order runs use tol 1e-9) and above '
+      'the 2e-5 rad floor the eps-steps around events leave; A2 shares the Jacobians with the simulator (C03 decides those).',
+      'full lattice enumeration of benchmark parameters and perturbation directions against independent reference solutions',
+      'DESIGN.md#c07')
+
 _PENDING = 'check not built yet in this round; planned per DESIGN.md (bounded exhaustive exploration applies)'
 for _p in ALL:
     if _p not in CLAIMED:
